@@ -11,6 +11,7 @@ pub mod oracle_b;
 pub mod parser;
 pub mod plan;
 pub mod record;
+pub mod reporters;
 pub mod runa;
 pub mod runb;
 #[cfg(feature = "tracing")]
